@@ -10,7 +10,7 @@ use std::fmt::Debug;
 const ID: &str = "C12";
 
 pub fn alphabet() -> Vec<&'static str> {
-    vec!["1", "1.5", "\"s\"", "true", "a", "f", "(", ")", ",", ";", "+", "=", "!", "&"]
+    vec!["1", "1.5", "\"s\"", "true", "a", "f", "len", "(", ")", ",", ";", "+", "=", "!", "&"]
 }
 
 fn canon<T: Debug>(r: &Result<T, EErr>) -> String {
@@ -193,6 +193,10 @@ pub fn contexts() -> Vec<(String, HCtx)> {
     c.set_builtin_functions_disabled(true).unwrap();
     c.set_value("a".into(), Value::Int(2)).unwrap();
     out.push(("a = 2, builtins disabled".into(), c));
+    let mut c = HCtx::new();
+    c.set_function("len".into(), Function::new(|_| Ok(Value::Int(300)))).unwrap();
+    c.set_value("a".into(), Value::String("t".into())).unwrap();
+    out.push(("a = \"t\", user function len shadows the builtin".into(), c));
     out
 }
 
@@ -470,7 +474,7 @@ pub fn run(cfg: &Cfg) -> Report {
     Report {
         property: ID,
         level: "model_checking",
-        rule: format!("every token sequence of length <= {max} over the {a}-token alphabet `1 1.5 \"s\" true a f ( ) , ; + = ! &` (well-formed or not; reaches all six result types and every error stage) x 10 contexts (fresh; a bound to each of the six types; user function f; builtins disabled) x all 24 string-level entry points (run twice) + the 24 Node methods + build_operator_tree; oracle: each typed result is the projection of the matching untyped result, `_mut` variants leave the same context, tree level = string level, context-free = fresh HashMapContext, precompile error passed through by all 48; plus every history of 2 (quick) / 3 (thorough) context-free calls over a pool of 21 sources (assignments, assignments followed by a failure, reads, retypes) run back to back on one thread: the last call must behave as evaluation in a fresh context. States = sources, transitions = entry-point executions. Non-trivial = sources of >= 2 tokens (each enumerated once)"),
+        rule: format!("every token sequence of length <= {max} over the {a}-token alphabet `1 1.5 \"s\" true a f len ( ) , ; + = ! &` (well-formed or not; reaches all six result types and every error stage) x 11 contexts (fresh; a bound to each of the six types; user function f; builtins disabled; a user function shadowing the builtin `len`) x all 24 string-level entry points (run twice) + the 24 Node methods + build_operator_tree; oracle: each typed result is the projection of the matching untyped result, `_mut` variants leave the same context, tree level = string level, context-free = fresh HashMapContext, precompile error passed through by all 48; plus every history of 2 (quick) / 3 (thorough) context-free calls over a pool of 21 sources (assignments, assignments followed by a failure, reads, retypes) run back to back on one thread: the last call must behave as evaluation in a fresh context. States = sources, transitions = entry-point executions. Non-trivial = sources of >= 2 tokens (each enumerated once)"),
         nontrivial_set: "counter:nontrivial-distinct",
         exhaustive: true,
         bound_completed: format!("token sequences of length {max}"),
